@@ -19,3 +19,6 @@ more.register(globals(), {"C02"}, ["par3_mixed", "map_fail_batches", "map_in_par
               {"nested_inner_catch": [("_catch", "mode == 0 and q2 == 0"), ("_retry", "mode == 1 and q2 == 0"), ("_catch_task", "mode == 0 and q2 == 1"), ("_retry_task", "mode == 1 and q2 == 1")], "par3_mixed": [("_none", "not fa and not fb"), ("_a", "fa and not fb"), ("_b", "fb and not fa"), ("_ab", "fa and fb")], "map_in_par": [("_k%d" % k, "kind == %d" % k) for k in range(3)]})
 
 globals()["nested_inner_catch_retry_task"]._vf.tiers = ("thorough",)   # 1665 schedules: quick tier runs it under C06 only
+
+import s2_found as found
+found.register(globals(), {"C02"}, ["caught_then_outer_fails"], {"caught_then_outer_fails": [("_a", "a_fails"), ("_noa", "not a_fails")]})
